@@ -170,6 +170,21 @@ def case_video(rng, choice=None):
             vs.append(("video-not-refreshed:service", "bitrate not refreshed after re-pointing the job to another service"))
         elif not close_q(phys(jobA.data_transferred), (br3 * frac(dur) * 3600, (0, 0, 0, 0, 0))):
             vs.append(("video-not-refreshed:service", "data transferred not refreshed after re-pointing the job to another service"))
+        # … and the input that is handed over unchanged to a derived parameter (video duration → request duration), twice
+        for mult in (2, 3):
+            if vs:
+                break
+            try:
+                jobA.video_duration = SourceValue(mult * dur * u.hour)
+            except Exception as e:  # noqa
+                vs.append(("video-edit-raises:video_duration", f"edit number {mult - 1} of video_duration raises {type(e).__name__}: {str(e)[:120]}"))
+                break
+            if not close_q(phys(jobA.video_duration), (mult * frac(dur) * 3600, (1, 0, 0, 0, 0))):
+                vs.append(("video-input-not-set:video_duration", f"video_duration reads {jobA.video_duration.value} after being set to {mult * dur} h"))
+            elif not close_q(phys(jobA.request_duration), (mult * frac(dur) * 3600, (1, 0, 0, 0, 0))):
+                vs.append(("video-not-refreshed:video_duration", "request duration not refreshed after editing video_duration"))
+            elif not close_q(phys(jobA.data_transferred), (br3 * mult * frac(dur) * 3600, (0, 0, 0, 0, 0))):
+                vs.append(("video-not-refreshed:video_duration", "data transferred not refreshed after editing video_duration"))
     return vs, {"builder": "video", "choice": resolution, "mixed_with_plain_job": mixed}
 
 
